@@ -181,7 +181,21 @@ def run(chk: Check, eng: Engine) -> None:
     tb = rcfg.true_branch_nodes(ri.id)
     regen_nodes = [i for i in tb if rcfg.nodes[i].kind == "stmt" and rcfg.nodes[i].ast is not None and ("derive_generator_output" in norm(rcfg.nodes[i].ast) or norm(rcfg.nodes[i].ast).endswith(".sources = []"))]
     p = rcfg.find_path(ri.id, [rcfg.exit], avoid=regen_nodes, ignore_edges={(ri.id, "false")})
-    if p is None and regen_nodes:
+    # a re-derivation that raises has not happened: if a local handler catches the exception and the function still returns normally,
+    # the tree keeps the new arguments with the children computed from the old ones
+    swallowed = None
+    for r_ in regen_nodes:
+        for h_, lab_ in rcfg.succ[r_]:
+            if lab_ == "exc":
+                hp = [(h_, "exc")] if h_ == rcfg.exit else rcfg.find_path(h_, [rcfg.exit], avoid=regen_nodes)
+                if hp is not None:
+                    swallowed = (r_, h_, hp)
+    if swallowed is not None:
+        r_, h_, hp = swallowed
+        chk.bad("R16-d", eng.relfile(rm), rcfg.nodes[r_].line, rm.fq, f"a failure of `{short(rcfg.nodes[r_].ast, 60)}` is caught (line {rcfg.nodes[h_].line}) and replace_multiple still returns the new tree",
+                "the tree records the new generator arguments but keeps the children computed from the old ones, and the misfit of the generator's value is no longer an error",
+                path=rcfg.describe_path(hp) if len(hp) > 1 else [], keyparts="regen-failure-swallowed")
+    elif p is None and regen_nodes:
         chk.ok("R16-d", rm.fq, ri.line, "with a replaced source every path re-derives the generator output or clears the sources")
     else:
         chk.bad("R16-d", eng.relfile(rm), ri.line, rm.fq, "a path with a replaced source returns without re-running the generator",
@@ -338,6 +352,8 @@ _G = "src/fandango/language/grammar/grammar.py"
 _MU = "src/fandango/evolution/mutation.py"
 _CX = "src/fandango/evolution/crossover.py"
 MUTANTS = [
+    M("regen-failure-logged-and-ignored", _T, "            else:\n                new_tree.set_children(grammar.derive_generator_output(new_tree))\n",
+      "            else:\n                try:\n                    new_tree.set_children(grammar.derive_generator_output(new_tree))\n                except Exception as e:\n                    warnings.warn(str(e))\n", "R16-d"),
     M("repair-unfreezes-the-live-source", "src/fandango/constraints/comparison.py", "            source_copy = self._source.deepcopy(\n                copy_children=True, copy_params=False, copy_parent=False\n            )\n            source_copy.set_all_read_only(False)\n",
       "            source_copy = self._source\n            source_copy.set_all_read_only(False)\n", "R16-g"),
     M("guard-checks-the-replacements-flag", "src/fandango/language/tree.py", "        if (\n            current_path in path_to_replacement\n            and self.symbol == path_to_replacement[current_path].symbol\n            and not self.read_only\n        ):\n            new_subtree = path_to_replacement[current_path].deepcopy(\n", "        replacement = path_to_replacement.get(current_path)\n        if (\n            replacement is not None\n            and replacement.symbol == self.symbol\n            and not replacement.read_only\n        ):\n            new_subtree = replacement.deepcopy(\n", "R16-a"),
@@ -359,6 +375,8 @@ MUTANTS = [
     M("find-all-nodes-default-false", _T, "    def find_all_nodes(\n        self, symbol: NonTerminal, exclude_read_only: bool = True\n    )", "    def find_all_nodes(\n        self, symbol: NonTerminal, exclude_read_only: bool = False\n    )", "R16-e"),
 ]
 TWINS = [
+    M("twin-regen-failure-reraised-with-context", _T, "            else:\n                new_tree.set_children(grammar.derive_generator_output(new_tree))\n",
+      "            else:\n                try:\n                    new_tree.set_children(grammar.derive_generator_output(new_tree))\n                except Exception as e:\n                    raise type(e)(f\"{new_tree.symbol}: {e}\") from e\n", None),
     M("twin-repair-copy-renamed", "src/fandango/constraints/comparison.py", "source_copy", "copy_of_source", None, count=3),
     M("twin-guard-with-hoisted-lookup", "src/fandango/language/tree.py", "        if (\n            current_path in path_to_replacement\n            and self.symbol == path_to_replacement[current_path].symbol\n            and not self.read_only\n        ):\n            new_subtree = path_to_replacement[current_path].deepcopy(\n", "        replacement = path_to_replacement.get(current_path)\n        if (\n            replacement is not None\n            and replacement.symbol == self.symbol\n            and not self.read_only\n        ):\n            new_subtree = replacement.deepcopy(\n", None),
     M("twin-repair-skips-generator-targets", "src/fandango/constraints/comparison.py", "        symbol = self._target.symbol\n        assert isinstance(symbol, NonTerminal)\n",
